@@ -197,8 +197,12 @@ func c09Specs(tier string) []*seq.Spec {
 		return []*seq.Spec{msSpec("historical-nodecache1", mk(1, msKeys3, msBounds3, 3, 2), 7), msSpec("historical-default", mk(0, msKeys3[:2], msBounds3[:3], 4, 3), 8),
 			msSpec("historical-direct-writes", direct(mk(0, msKeys3[:2], msBounds3[:3], 3, 2)), 7)}
 	}
+	// three keys, one value: the smallest tree in which removing a key changes the separator key of an inner node
+	// that older versions share (needs set x3, commit, remove, commit = 6 operations before the old version is read)
+	three := mk(0, msKeys3, msBounds3[:3], 3, 1)
+	three.vals = three.vals[:1]
 	return []*seq.Spec{msSpec("historical-nodecache1", mk(1, msKeys3[:2], msBounds3[:3], 3, 2), 7), msSpec("historical-default", mk(0, msKeys3[:2], msBounds3[:3], 3, 2), 7),
-		msSpec("historical-direct-writes", direct(mk(0, msKeys3[:2], msBounds3[:3], 3, 2)), 7)}
+		msSpec("historical-direct-writes", direct(mk(0, msKeys3[:2], msBounds3[:3], 3, 2)), 7), msSpec("historical-three-keys", three, 7)}
 }
 
 func init() {
